@@ -102,18 +102,17 @@ Next == /\ Len(hist) < MaxLen
            \/ StepAddDoc
            \/ StepRemoveDoc
 
-\* random walks: the kind of step is drawn first, so that the many possible
-\* document values do not crowd out removals and field changes
-CanAddField    == \E f \in FieldSet \ fields : \A d \in DOMAIN docs : f \notin DOMAIN docs[d]
-CanRemoveField == fields # {}
-CanAddDoc      == "replace" \notin Avoid \/ DOMAIN docs # DocSet
+\* random walks: TLC's simulator draws uniformly among ALL successor states, so the many possible
+\* document values would crowd out removals and field changes; here a step offers, per document
+\* id, three randomly drawn values only
+StepAddDocSome == \E d \in DocSet :
+                    \E v \in {RandomElement(DocVals(fields)), RandomElement(DocVals(fields)), RandomElement(DocVals(fields))} :
+                       AddDoc(d, v) /\ Record([op |-> "AddDoc", d |-> d, v |-> v])
 SimNext == /\ Len(hist) < MaxLen
-           /\ \E k \in {RandomElement(1..10)} :
-                \/ (k = 1 /\ StepAddField)
-                \/ (k = 2 /\ StepRemoveField)
-                \/ (k \in 3..7 /\ StepAddDoc)
-                \/ ((k >= 8 \/ (k = 1 /\ ~CanAddField) \/ (k = 2 /\ ~CanRemoveField)
-                            \/ (k \in 3..7 /\ ~CanAddDoc)) /\ StepRemoveDoc)
+           /\ \/ StepAddField
+              \/ StepRemoveField
+              \/ StepAddDocSome
+              \/ StepRemoveDoc
 
 Spec    == Init /\ [][Next]_vars
 SimSpec == Init /\ [][SimNext]_vars
